@@ -1,0 +1,120 @@
+//go:build verif
+
+package storage
+
+// Verification hooks for properties C03/C04 (lock slots, ghost keys). Add-only, compiled
+// only with `-tags verif`. They expose raw key layouts and a raw dump of the key families
+// the lock code writes, plus the minimal preparation WriteSnapshot's debug asserts need.
+
+import (
+	"github.com/MixinNetwork/mixin/common"
+	"github.com/MixinNetwork/mixin/crypto"
+	"github.com/dgraph-io/badger/v4"
+)
+
+// VerifLockFamilies are the key prefixes touched by the lock / prune / finalize code.
+var VerifLockFamilies = []string{
+	graphPrefixUTXO, graphPrefixDeposit, graphPrefixMint, graphPrefixTransaction,
+	graphPrefixFinalization, graphPrefixGhost, graphPrefixUnique,
+}
+
+type VerifKV struct {
+	Family string
+	Key    []byte // without the family prefix
+	Val    []byte
+}
+
+// VerifDumpLocks returns every key of the lock-related families, read in one read transaction
+// with one iterator over the whole key space (no family name is a prefix of another family).
+func (s *BadgerStore) VerifDumpLocks() []VerifKV {
+	s.mutex.RLock()
+	defer s.mutex.RUnlock()
+
+	txn := s.snapshotsDB.NewTransaction(false)
+	defer txn.Discard()
+
+	var out []VerifKV
+	it := txn.NewIterator(badger.DefaultIteratorOptions)
+	defer it.Close()
+	for it.Rewind(); it.Valid(); it.Next() {
+		item := it.Item()
+		k := item.KeyCopy(nil)
+		for _, fam := range VerifLockFamilies {
+			if len(k) < len(fam) || string(k[:len(fam)]) != fam {
+				continue
+			}
+			v, err := item.ValueCopy(nil)
+			if err != nil {
+				panic(err)
+			}
+			out = append(out, VerifKV{Family: fam, Key: k[len(fam):], Val: v})
+			break
+		}
+	}
+	return out
+}
+
+// VerifPrepareRounds writes the XIN asset info and a round cache (number, references) for each
+// node id, which is what the debug asserts of WriteSnapshot and writeTotalInAsset require to exist.
+func (s *BadgerStore) VerifPrepareRounds(nodes []crypto.Hash, number uint64, refs *common.RoundLink) error {
+	return s.snapshotsDB.Update(func(txn *badger.Txn) error {
+		err := writeAssetInfo(txn, common.XINAssetId, common.XINAsset)
+		if err != nil {
+			return err
+		}
+		for _, n := range nodes {
+			err := writeRound(txn, n, &common.Round{Hash: n, NodeId: n, Number: number, References: refs})
+			if err != nil {
+				return err
+			}
+		}
+		return nil
+	})
+}
+
+func VerifUtxoKeySuffix(hash crypto.Hash, index uint) []byte {
+	return graphUtxoKey(hash, index)[len(graphPrefixUTXO):]
+}
+
+func VerifDepositKeySuffix(d *common.DepositData) []byte {
+	return graphDepositKey(d)[len(graphPrefixDeposit):]
+}
+
+func VerifMintKeySuffix(batch uint64) []byte {
+	return graphMintKey(batch)[len(graphPrefixMint):]
+}
+
+func VerifUniqueKeySuffix(node, tx crypto.Hash) []byte {
+	return graphUniqueKey(node, tx)[len(graphPrefixUnique):]
+}
+
+func VerifFamilyNames() (utxo, deposit, mint, transaction, finalization, ghost, unique string) {
+	return graphPrefixUTXO, graphPrefixDeposit, graphPrefixMint, graphPrefixTransaction,
+		graphPrefixFinalization, graphPrefixGhost, graphPrefixUnique
+}
+
+// VerifGetLocks point-reads the given (family, key suffix) pairs in one read transaction and
+// returns those that exist.
+func (s *BadgerStore) VerifGetLocks(keys []VerifKV) []VerifKV {
+	s.mutex.RLock()
+	defer s.mutex.RUnlock()
+
+	txn := s.snapshotsDB.NewTransaction(false)
+	defer txn.Discard()
+
+	var out []VerifKV
+	for _, k := range keys {
+		item, err := txn.Get(append([]byte(k.Family), k.Key...))
+		if err == badger.ErrKeyNotFound {
+			continue
+		} else if err != nil {
+			panic(err)
+		}
+		v, err := item.ValueCopy(nil)
+		if err != nil {
+			panic(err)
+		}
+		out = append(out, VerifKV{Family: k.Family, Key: k.Key, Val: v})
+	}
+	return out
+}
